@@ -254,6 +254,15 @@ func (serv *ExchangeServer[H]) handleRangeRequest(
 			return nil, header.ErrNotFound
 		}
 
+		if to-1 <= head.Height() {
+			// the end of the range is not above the head, so it is below the tail (pruned):
+			// there is nothing to serve, and clamping `to` to the head would make us
+			// read far more than what was requested
+			span.SetStatus(codes.Error, header.ErrNotFound.Error())
+			serv.metrics.rangeServed(ctx, time.Since(startTime), to-from, true)
+			return nil, header.ErrNotFound
+		}
+
 		log.Debugw("server: serving partial range",
 			"prevMaxHeight", to,
 			"newMaxHeight", head.Height()+1,
